@@ -54,6 +54,42 @@ CLAIMED = {
    text="FindEdges, Distance, IsDistanceLess/Greater and the conservative tests equal the scan on every combination of 9-13 indexes (1-6 faces, 8-300 edges), 11-13 targets (points, edges, cells, a second index) and 50 option sets: results sorted, duplicate-free, within MaxResults and the distance limit, each with its true distance, and within MaxError (as an angle) of the i-th optimum.",
    note="Per-edge distances are taken from the target's own updateDistanceToEdge (accuracy is C12/C17's business); ties compared as distances; interiors rule asserted for closest point targets only.",
    design="DESIGN.md §6 C08"),
+
+ "C01": dict(level="exploration", engine="E3 enum",
+   technique="bounded-exhaustive enumeration: every cell id to a level plus structured deep families through every CellID operation against an independent integer cube-surface model with a naive Hilbert recursion; boundary-targeted point lattices (every leaf boundary of a face axis in the thorough tier) for CellFromPoint/ContainsPoint; all short token/string inputs",
+   text="Parent/child/range/level/face/pos/token/string round trips, children partition, curve adjacency and neighbour sets (as exact sets) agree with the model on every enumerated id; every lattice point gets a valid leaf that contains it together with all 30 ancestors.",
+   note="Levels > 4 (quick) / 7 (thorough) only on the structured deep families; the point hunt is exhaustive over one face axis' leaf boundaries, not over the sphere (DESIGN L1).",
+   design="DESIGN.md §6 C01"),
+ "C09": dict(level="exploration", engine="E3 enum",
+   technique="bounded-exhaustive enumeration of encodable values (all replacement masks of cell-centre quadrilaterals at all 31 levels and structural positions, boundary coordinate sequences, 16-bit first differences, bound-encoded and multi-loop polygons, all short cell-union / polyline sequences); oracle = bit identity of every field (reflection) and of a query panel after decode(encode(v)), byte stability",
+   text="decode(encode(v)) is bit-identical in every field and answers the same query panel; encode is deterministic and idempotent through a round trip, for both polygon formats at every snap level.",
+   note="The primitive coders are driven through Polygon encoding (no direct hooks); values are catalogue-generated, not all values.",
+   design="DESIGN.md §6 C09"),
+ "C11": dict(level="model_checking", engine="E3 enum + E2 opseq",
+   technique="exhaustive enumeration of all subsets / all ordered pairs / all tuples over small cell universes against a leaf-interval set model; explicit-state enumeration of all Add/AddCellUnion histories of CellIndex followed by full iterator sweeps",
+   text="Normalize, IsValid, IsNormalized, LeafCellsCovered, Denormalize, Contains/IntersectsCellID on every (multi)subset; Union/Intersection/Difference/Contains/Intersects on every ordered pair; CellUnionFromRange/MaxTile on every begin/end pair; CellIndex range/contents/non-empty iterators and Seek after every history; s2intersect.Find on every tuple — all equal the set model.",
+   note="Universes of 14-21 cells, windows of 64-256 leaves, histories of depth 4-6.",
+   design="DESIGN.md §6 C11"),
+ "C12": dict(level="exploration", engine="E3 enum",
+   technique="bounded-exhaustive enumeration of cells (all of levels <= 2/3 plus deep families) x target alphabets (points, edges, cells) against the cube model and exact big-integer reference distances; PaddedCell against the model's curve corners and exact smallest-cell computation",
+   text="Geometry, containment, bounds, point/edge/cell min and max distances (never-closer / never-farther on a grid), Children vs direct construction, PaddedCell entry/exit/middle/ShrinkToFit agree with the reference within the stated tolerance on every cell x target.",
+   note="702 / 4,734 cells; tolerance models the two documented accuracy losses (edge formula near 90 degrees, chord angles near 180).",
+   design="DESIGN.md §6 C12"),
+ "C18": dict(level="exploration", engine="E3 enum",
+   technique="bounded-exhaustive enumeration of a loop catalogue (n-gons, cells, slivers, near-180-degree edges, every ordered triple of exactly degenerate points) with all rotations, reversal and inversion, and a polygon catalogue, against a 384-bit reference turning angle / area (Gauss-Bonnet, cross-checked by a fan sum) and exact containment turned into an area bound",
+   text="Area(L)+Area(L')=4pi, rotation independence, fan-sum agreement, containment-consistent area for slivers and degenerate loops, TurningAngle bit-identical under rotation and exactly negated by Invert, IsNormalized/Normalize consistent, polygon area/centroid = signed sums, within the documented error on every catalogue entry.",
+   note="Vertex counts up to 130/300, not 10^4; centroid asserted only where a bound can be justified.",
+   design="DESIGN.md §6 C18"),
+ "C19": dict(level="exploration", engine="E3 enum",
+   technique="bounded-exhaustive enumeration of all intervals / rectangles / caps over boundary endpoint alphabets and all ordered pairs of them, against point membership on a complete probe set (every alphabet value plus one abstract point per gap)",
+   text="Union, Intersection, Contains, Intersects, interior variants, AddPoint, Expanded, Complement, Project/ClampPoint, Hausdorff distances and constructors of r1.Interval, s1.Interval, r2.Rect, s2.Rect, s2.Cap and ChordAngle arithmetic agree with membership (exactly for the linear types, in the sound directions for circular ones) on every pair.",
+   note="Cap assertions cannot see differences below 1e-9 rad (more near 180 degrees); shrinking by a negative margin is outside the property text and only counted.",
+   design="DESIGN.md §6 C19"),
+ "C20": dict(level="exploration", engine="E3 enum",
+   technique="bounded-exhaustive enumeration of edges x projections x scales x tolerances derived from each edge's own measured deviation and decision estimate (so that accept/subdivide boundaries are hit), all polylines of <= 6 vertices over point alphabets x tolerances, all snap levels / exponents x boundary points; achieved error measured against a conditioned float64 reference re-confirmed at 256 bits",
+   text="Every output chain of AppendProjected/AppendUnprojected stays within the requested tolerance (33 fractions per segment), endpoints preserved, neighbours within half a period; Project/Unproject round trip; SubsampleVertices keeps endpoints, emits no duplicate neighbours, drops only vertices within tolerance; CellIDSnapper / IntLatLngSnapper land on a site of the declared grid within SnapRadius.",
+   note="Reference error 2e-15 rad added to the implementation's side; Mercator edges within 0.05 degrees of a pole excluded (documented limitation).",
+   design="DESIGN.md §6 C20"),
 }
 
 PLANNED = {  # not yet claimed: each gets a reason in not_applicable until its check is committed
